@@ -1,4 +1,34 @@
 """Workload generators (DESIGN 3.4): histories with shape-adversarial keys."""
+
+
+class OperandBoom(Exception):
+    """Raised by a failing operand (an iterator / items() source that breaks
+    off half-way): user code failing inside a bulk operation."""
+
+
+class FailingItems:
+    """update() source: items() yields the first k pairs, then raises."""
+
+    def __init__(self, pairs, k):
+        self.pairs, self.k = list(pairs), k
+
+    def items(self):
+        for i, p in enumerate(self.pairs):
+            if i == self.k:
+                raise OperandBoom(i)
+            yield p
+        if self.k >= len(self.pairs):
+            raise OperandBoom(len(self.pairs))
+
+
+def failing_iter(keys, k):
+    for i, x in enumerate(keys):
+        if i == k:
+            raise OperandBoom(i)
+        yield x
+    if k >= len(keys):
+        raise OperandBoom(len(keys))
+
 from . import walker
 from .families import sort_keys
 
@@ -152,6 +182,11 @@ class HistoryGen:
             n = rng.randint(0, 6)
             pairs = [(rng.choice(self.universe), self._val())
                      for _ in range(n)]
+            if rng.random() < .12:
+                # the source breaks off half-way: the pairs before the
+                # failure are in, the exception reaches the caller
+                return ('update', (('FAILMAP', (pairs, rng.randint(
+                    0, len(pairs)))),))
             # (no one-shot iterator of pairs here: Interfaces.py documents
             # update() for a *sequence* of pairs or an object with items();
             # the C update_from_seq() refuses a bare iterator)
@@ -164,6 +199,9 @@ class HistoryGen:
             return ('sinsert', (k,))
         if r < 0.85:
             ks = [rng.choice(self.universe) for _ in range(rng.randint(0, 6))]
+            if rng.random() < .12:
+                return (rng.choice(['supdate', 'ior']),
+                        (('FAILITER', (ks, rng.randint(0, len(ks)))),))
             return ('supdate', ((rng.choice(['LIST', 'SET', 'TUPLE', 'ITER',
                                              'GEN']), ks),))
         if r < 0.93:
@@ -264,6 +302,10 @@ def materialize(arg, fam, impl, target, model_side):
         return b
     if tag == 'LIST':
         return list(payload)
+    if tag == 'FAILMAP':
+        return FailingItems(payload[0], payload[1])
+    if tag == 'FAILITER':
+        return failing_iter(list(payload[0]), payload[1])
     if tag in ('ITER', 'GEN', 'ITERPAIRS'):
         # one-shot operands: consumed by the first pass over them
         if model_side:
